@@ -36,28 +36,30 @@ FW_PLANS = {
         verdicts={"C02"},
         rule=RULE % "a PaddingSent report or a returned SendPadding",
         quick=dict(
-            mc=[C("pad-quick", "pad", 5, 1, "one", ["Inv_C02"])],
-            gen=[C("pad-quick", "pad", 3, 1, "one")],
+            mc=[C("pad-quick", "pad", 5, 1, "one", ["Inv_C02"]), C("pad-reenter", "pad", 4, 1, "one", ["Inv_C02"])],
+            gen=[C("pad-quick", "pad", 3, 1, "one"), C("pad-reenter", "pad", 4, 1, "one"),
+                 C("pad-quick", "pad", 10, 1, "one", ["Inv_C02"], simulate=200)],
             rand=dict(scenarios=300, calls=30)),
         thorough=dict(
             workers=14,
             mc=[C("pad-quick", "pad", 6, 1, "one", ["Inv_C02"]),
-                C("pad-thorough", "pad", 4, 1, "one", ["Inv_C02"])],
-            gen=[C("pad-quick", "pad", 4, 1, "one"),
+                C("pad-thorough", "pad", 4, 1, "one", ["Inv_C02"]), C("pad-reenter", "pad", 5, 1, "one", ["Inv_C02"])],
+            gen=[C("pad-quick", "pad", 4, 1, "one"), C("pad-reenter", "pad", 5, 1, "one"),
                  C("pad-thorough", "pad", 14, 1, "one", ["Inv_C02"], simulate=800)],
             rand=dict(scenarios=3000, calls=60))),
     "C03": dict(
         verdicts={"C03"},
         rule=RULE % "a BlockingBegin/BlockingEnd report or a returned BlockOutgoing",
         quick=dict(
-            mc=[C("block-quick", "block", 5, 1, "mixed", ["Inv_C03"])],
-            gen=[C("block-quick", "block", 3, 1, "mixed")],
+            mc=[C("block-quick", "block", 5, 1, "mixed", ["Inv_C03"]), C("block-reenter", "block", 3, 1, "mixed", ["Inv_C03"])],
+            gen=[C("block-quick", "block", 3, 1, "mixed"), C("block-reenter", "block", 3, 1, "mixed"),
+                 C("block-quick", "block", 10, 1, "mixed", ["Inv_C03"], simulate=200)],
             rand=dict(scenarios=300, calls=30)),
         thorough=dict(
             workers=14,
             mc=[C("block-quick", "block", 6, 1, "wide", ["Inv_C03"]),
-                C("block-thorough", "block", 4, 1, "mixed", ["Inv_C03"])],
-            gen=[C("block-quick", "block", 4, 1, "mixed"),
+                C("block-thorough", "block", 4, 1, "mixed", ["Inv_C03"]), C("block-reenter", "block", 4, 1, "mixed", ["Inv_C03"])],
+            gen=[C("block-quick", "block", 4, 1, "mixed"), C("block-reenter", "block", 4, 1, "one"),
                  C("block-thorough", "block", 14, 1, "wide", ["Inv_C03"], simulate=800)],
             rand=dict(scenarios=3000, calls=60))),
     "C04": dict(
